@@ -401,8 +401,8 @@ theorem conCost_eq (g : Net) (obj : Objective) (temp : Legs) (a b : Nat) :
   | max => simp only [conCost, conCostMax, scanAll_eq, combine]
   | size => simp only [conCost, conCostSize, scanKept_eq, combine]
   | write => simp only [conCost, conCostWrite, scanKept_eq, combine]
-  | combo f => simp only [conCost, conCostCombo, scanBoth_eq, combine]
-  | limit f => simp only [conCost, conCostLimit, scanBoth_eq, combine]
+  | combo p q => simp only [conCost, conCostCombo, scanBoth_eq, combine]
+  | limit p q => simp only [conCost, conCostLimit, scanBoth_eq, combine]
 
 theorem sorted_kept (g : Net) (L : Legs) (h : Sorted L) : Sorted (kept g L) := by
   unfold Sorted keys kept at *
